@@ -638,6 +638,27 @@ inline std::vector<Model> api_models() {
 		if (s1::load(probe, bytes) != 0) vf::fatal(std::string("api model does not reload: ") + v.name);
 		ms.push_back({v.name, bytes, {}});
 	}
+	// a shader flagged "model space normals" in versions where a clone keeps normals and tangents (FO4, FO76) and in
+	// one where it drops them (SSE; there the source is built without normals, as such meshes are)
+	for (auto& v : {V{"api:FO4+model-space-normals", NiVersion::getFO4()}, V{"api:FO76+model-space-normals", NiVersion::getFO76()}, V{"api:SSE+model-space-normals", NiVersion::getSSE()}}) {
+		NifFile nif;
+		nif.Create(v.ver);
+		std::vector<Vector3> verts = {{0.0f, 0.0f, 0.0f}, {1.0f, 0.0f, 0.25f}, {0.0f, 1.0f, 0.5f}, {1.0f, 1.0f, 0.75f}};
+		std::vector<Triangle> tris = {{0, 1, 2}, {1, 3, 2}};
+		std::vector<Vector2> uvs = {{0.0f, 0.0f}, {1.0f, 0.0f}, {0.0f, 1.0f}, {1.0f, 1.0f}};
+		std::vector<Vector3> norms(4, Vector3(0.0f, 0.0f, 1.0f));
+		const bool sse = std::string(v.name).find("SSE") != std::string::npos;
+		NiShape* shape = nif.CreateShapeFromData("ApiModelSpace", &verts, &tris, &uvs, sse ? nullptr : &norms);
+		NiShader* shader = shape ? nif.GetShader(shape) : nullptr;
+		auto bss = dynamic_cast<BSShaderProperty*>(shader);
+		if (!bss) vf::fatal(std::string("api model has no BSShaderProperty: ") + v.name);
+		bss->shaderFlags1 |= 1u << 12;
+		std::string bytes = s1::save(nif, true);
+		if (bytes.empty()) vf::fatal(std::string("api model could not be saved: ") + v.name);
+		NifFile probe;
+		if (s1::load(probe, bytes) != 0) vf::fatal(std::string("api model does not reload: ") + v.name);
+		ms.push_back({v.name, bytes, {}});
+	}
 	// hierarchical skeletons: a shape skinned to BoneA and to its child BoneB, and a model that already owns BoneA but
 	// not BoneB (a clone into it has to create the descendant under the node that is already there)
 	for (auto& v : {V{"api:SK+bone-chain", NiVersion::getSK()}, V{"api:SSE+bone-chain", NiVersion::getSSE()}, V{"api:SK+bone-root-only", NiVersion::getSK()}, V{"api:SSE+bone-root-only", NiVersion::getSSE()}}) {
